@@ -277,8 +277,10 @@ def main(argv=None):
     if vlines:
         return 1
     if errors:
-        for e in errors:
-            print(e, file=sys.stderr)
+        for e in errors[:3]:
+            print(e[-1800:], file=sys.stderr)
+        if len(errors) > 3:
+            print(f"... {len(errors) - 3} more unit error(s) not shown", file=sys.stderr)
         print(f"HARNESS-ERROR property={prop_id} ({len(errors)} unit(s) failed)")
         return 2
     floor = getattr(mod, "NT_FLOOR", 0.05)
